@@ -13,6 +13,7 @@ import ArvVerif.Proofs.C16_Complete
 import ArvVerif.Proofs.C16_RunQueue
 import ArvVerif.Proofs.C16_RunQueue2
 import ArvVerif.Proofs.C16_Queue
+import ArvVerif.Proofs.C16_Compose
 namespace ArvVerif.C16
 
 /-! ## Part A -/
@@ -450,6 +451,69 @@ theorem C16_queue_resp_recorded (c : Cache) (l : List Nat) (u : Nat) (st : QStat
     · simp only [hc, if_true]
     · simp only [hc, Bool.false_eq_true, if_false, List.contains_cons, BEq.rfl, Bool.true_or]
 
+/-! ## Parts A and C composed: what runQueue sees for a container is a cheapest adequate type -/
+
+/-- **`Select:` decides what the chooser is given.** Every record of a poll stems from a record of
+the controller's snapshot with the same uuid. It carries that container's constraint vector — unless
+one of the three list requests does not select the sizing attributes, in which case it may carry the
+all-zero vector instead (what `addEnt` would then size the container from). With `poll()` as it is
+(`pollResult`: all three select `selectParam`, tie `tie_queuePollSelect`) every record carries the
+controller's vector. -/
+theorem C16_queue_poll_select (s1 s2 s3 : Bool) (snap : Ctl) (cur : List (Nat × CEnt)) (needOfU : Nat → Nat)
+    (hsnap : ∀ c ∈ snap, c.need = needOfU c.uuid) :
+    (∀ r ∈ pollResultSel s1 s2 s3 snap cur,
+        r.need = needOfU r.uuid ∨ ((s1 && s2 && s3) = false ∧ r.need = 0)) ∧
+    (∀ r ∈ pollResult snap cur, r.need = needOfU r.uuid) := by
+  refine ⟨?_, pollResult_need snap cur needOfU hsnap⟩
+  intro r hr
+  obtain ⟨c, hc, hu, hn⟩ := pollResultSel_need s1 s2 s3 snap cur r hr
+  rcases hn with hn | hn
+  · left; rw [hn, hsnap c hc, hu]
+  · exact Or.inr hn
+
+/-- **A queue entry carries a cheapest adequate configured type for its own container** (parts A and C
+composed). The chooser is the dispatcher's: ChooseInstanceType over the cluster's table, in whatever
+order the Go map is iterated for that container (`chooserOf`; tie `tie_typeChooser`,
+`tie_typeChooserPure`). For every history of Update / Lock / Unlock / Cancel calls from an empty queue
+(a dispatcher that has just started) in which every poll response carries each container's own
+constraint vector (`FullPolls`; by `C16_queue_poll_select` that is what `poll()` delivers), an entry
+for container `u`
+ * with a type: the type is configured, satisfies every constraint of container `u` (VCPUs, RAM after
+   the discount, scratch, preemptible — the unbounded formulas) and no adequate configured type is
+   strictly cheaper;
+ * with the zero-valued type: no configured type satisfies the constraints, and the container was
+   neither Queued nor Locked when it was added (so runQueue never acts on it). -/
+theorem C16_queue_entry_cheapest_adequate (table : List IType) (orderOf : Nat → List IType) (reserve : Int)
+    (decode : Nat → Ctr) (needOfU : Nat → Nat)
+    (hperm : ∀ n, (orderOf n).Perm table) (hr : ∀ n, InRange reserve (decode n))
+    (hnn : ∀ x ∈ table, 0 ≤ x.ram ∧ 0 ≤ x.vcpus)
+    (ops : List QOp) (hfull : FullPolls needOfU ops) (u : Nat) (e : CEnt)
+    (h : (u, e) ∈ (runOps (chooserOf orderOf reserve decode) ops emptyCache).current) :
+    (∀ t, e.ty = some t → ∃ it ∈ table, it.name = t ∧
+        Adequate (needSpec reserve (decode (needOfU u))) it ∧
+        ∀ other ∈ table, Adequate (needSpec reserve (decode (needOfU u))) other → it.price ≤ other.price) ∧
+    (e.ty = none → (∀ x ∈ table, ¬ Adequate (needSpec reserve (decode (needOfU u))) x) ∧
+        e.addedSt ≠ .queued ∧ e.addedSt ≠ .locked) := by
+  obtain ⟨hty, hz⟩ := C16_queue_no_arbitrary_type (chooserOf orderOf reserve decode) ops u e h
+  have hneed : e.addedNeed = needOfU u :=
+    needsOK_runOps (chooserOf orderOf reserve decode) needOfU ops emptyCache hfull (fun _ hp => by cases hp) (u, e) h
+  rw [hneed] at hty
+  constructor
+  · intro t ht
+    rw [ht] at hty
+    obtain ⟨it, hit, hname⟩ := chooserOf_some hty
+    obtain ⟨hmem, had⟩ := C16_adequate table (orderOf (needOfU u)) [] reserve (decode (needOfU u)) it
+      (hperm _) (hr _) hit
+    exact ⟨it, hmem, hname, had,
+      C16_cheapest table (orderOf (needOfU u)) [] reserve (decode (needOfU u)) it (hperm _) (hr _) hnn hit⟩
+  · intro hn
+    rw [hn] at hty
+    refine ⟨?_, hz hn⟩
+    intro x hx hax
+    obtain ⟨it, hit⟩ := C16_satisfiable table (orderOf (needOfU u)) [] reserve (decode (needOfU u)) x
+      (hperm _) (hr _) hnn hx hax
+    exact chooserOf_none hty it hit
+
 /-! ## Non-vacuity: concrete instances of the hypotheses, and witnesses of the stated exceptions -/
 
 def exA : IType := { name := 1, vcpus := 1, ram := 2000, scratch := 10, price := 64, preemptible := false }
@@ -523,5 +587,32 @@ example :
 /-- the scenario C16-e on the model: an unsatisfiable Locked container is not added -/
 example : (applyPoll (fun _ => none) emptyCache [{ uuid := 1, st := .locked, prio := 5, need := 9 }]).1.current = [] ∧
     (applyPoll (fun _ => none) emptyCache [{ uuid := 1, st := .locked, prio := 5, need := 9 }]).2 = [1] := by decide
+
+/-- the seeded-change scenario C16-h on the model: a dispatcher that has just started finds container 1
+Locked by its own token; if the "locked by me" request does not select the sizing attributes the polled
+record carries the all-zero constraint vector instead of the container's (here: code 4) -/
+example : pollResultSel false true true
+      [{ uuid := 1, st := .locked, prio := 5, need := 4, mine := true, err := false }] [] =
+    [{ uuid := 1, st := .locked, prio := 5, need := 0 }] := by decide
+example : pollResult [{ uuid := 1, st := .locked, prio := 5, need := 4, mine := true, err := false }] [] =
+    [{ uuid := 1, st := .locked, prio := 5, need := 4 }] := by decide
+
+/-- a concrete instance of the hypotheses of `C16_queue_entry_cheapest_adequate`: table exA/exB/exC, the
+constraint-vector code is the number of VCPUs, one poll that shows container 1 (1 VCPU) and container 2
+(5 VCPUs, Complete): 1 gets exA, 2 is kept with the zero-valued type -/
+def exDecode (n : Nat) : Ctr := { exCtr with vcpus := (n : Int) }
+example : ∀ n, InRange 10 (exDecode n) := fun _ =>
+  have h : InRange 10 exCtr := ⟨by decide, by decide, by decide, by decide⟩
+  ⟨h.ram, h.img, h.tmp, h.scratch⟩
+example : FullPolls (fun u => if u = 1 then 1 else 5)
+    [.begin, .poll [{ uuid := 1, st := .queued, prio := 5, need := 1 }, { uuid := 2, st := .complete, prio := 0, need := 5 }]] := by
+  intro next hn r hr
+  simp only [List.mem_cons, List.not_mem_nil, or_false, reduceCtorEq, false_or, QOp.poll.injEq] at hn
+  subst hn
+  simp only [List.mem_cons, List.not_mem_nil, or_false] at hr
+  rcases hr with rfl | rfl <;> rfl
+example : ((runOps (chooserOf (fun _ => [exA, exB, exC]) 10 exDecode)
+      [.begin, .poll [{ uuid := 1, st := .queued, prio := 5, need := 1 }, { uuid := 2, st := .complete, prio := 0, need := 5 }]]
+      emptyCache).current.map (fun p => (p.1, p.2.ty))) = [(1, some 1), (2, none)] := by decide
 
 end ArvVerif.C16
